@@ -242,6 +242,8 @@ impl Integer for BigUint {
         n >>= twos(&n);
 
         while !m.is_zero() {
+            verif_probe!(GcdLoop);
+            verif_probe!(tick);
             m >>= twos(&m);
             if n > m {
                 mem::swap(&mut n, &mut m)
@@ -341,10 +343,13 @@ where
     // If the value increased, then the initial guess must have been low.
     // Repeat until we reverse course.
     while x < xn {
+        verif_probe!(FixClimb);
+        verif_probe!(tick);
         // Sometimes an increase will go way too far, especially with large
         // powers, and then take a long time to walk back.  We know an upper
         // bound based on bit size, so saturate on that.
         x = if xn.bits() > max_bits {
+            verif_probe!(FixSaturate);
             BigUint::one() << max_bits
         } else {
             xn
@@ -354,6 +359,8 @@ where
 
     // Now keep repeating while the estimate is decreasing.
     while x > xn {
+        verif_probe!(FixDescend);
+        verif_probe!(tick);
         x = xn;
         xn = f(&x);
     }
@@ -385,11 +392,13 @@ impl Roots for BigUint {
         let bits = self.bits();
         let n64 = u64::from(n);
         if bits <= n64 {
+            verif_probe!(RootBitsLeN);
             return BigUint::one();
         }
 
         // If we fit in `u64`, compute the root that way.
         if let Some(x) = self.to_u64() {
+            verif_probe!(RootU64Path);
             return x.nth_root(n).into();
         }
 
@@ -399,6 +408,7 @@ impl Roots for BigUint {
         let guess = match self.to_f64() {
             Some(f) if f.is_finite() => {
                 use num_traits::FromPrimitive;
+                verif_probe!(RootF64Guess);
 
                 // We fit in `f64` (lossy), so get a better initial guess from that.
                 BigUint::from_f64((f.ln() / f64::from(n)).exp()).unwrap()
@@ -410,8 +420,10 @@ impl Roots for BigUint {
                 let root_scale = Integer::div_ceil(&extra_bits, &n64);
                 let scale = root_scale * n64;
                 if scale < bits && bits - scale > n64 {
+                    verif_probe!(RootScaled);
                     (self >> scale).nth_root(n) << root_scale
                 } else {
+                    verif_probe!(RootPow2Guess);
                     BigUint::one() << max_bits
                 }
             }
@@ -419,6 +431,8 @@ impl Roots for BigUint {
 
         #[cfg(not(feature = "std"))]
         let guess = BigUint::one() << max_bits;
+        #[cfg(not(feature = "std"))]
+        verif_probe!(RootPow2Guess);
 
         let n_min_1 = n - 1;
         fixpoint(guess, max_bits, move |s| {
@@ -437,6 +451,7 @@ impl Roots for BigUint {
 
         // If we fit in `u64`, compute the root that way.
         if let Some(x) = self.to_u64() {
+            verif_probe!(RootU64Path);
             return x.sqrt().into();
         }
 
@@ -447,6 +462,7 @@ impl Roots for BigUint {
         let guess = match self.to_f64() {
             Some(f) if f.is_finite() => {
                 use num_traits::FromPrimitive;
+                verif_probe!(RootF64Guess);
 
                 // We fit in `f64` (lossy), so get a better initial guess from that.
                 BigUint::from_f64(f.sqrt()).unwrap()
@@ -457,12 +473,15 @@ impl Roots for BigUint {
                 let extra_bits = bits - (f64::MAX_EXP as u64 - 1);
                 let root_scale = (extra_bits + 1) / 2;
                 let scale = root_scale * 2;
+                verif_probe!(RootScaled);
                 (self >> scale).sqrt() << root_scale
             }
         };
 
         #[cfg(not(feature = "std"))]
         let guess = BigUint::one() << max_bits;
+        #[cfg(not(feature = "std"))]
+        verif_probe!(RootPow2Guess);
 
         fixpoint(guess, max_bits, move |s| {
             let q = self / s;
@@ -478,6 +497,7 @@ impl Roots for BigUint {
 
         // If we fit in `u64`, compute the root that way.
         if let Some(x) = self.to_u64() {
+            verif_probe!(RootU64Path);
             return x.cbrt().into();
         }
 
@@ -488,6 +508,7 @@ impl Roots for BigUint {
         let guess = match self.to_f64() {
             Some(f) if f.is_finite() => {
                 use num_traits::FromPrimitive;
+                verif_probe!(RootF64Guess);
 
                 // We fit in `f64` (lossy), so get a better initial guess from that.
                 BigUint::from_f64(f.cbrt()).unwrap()
@@ -498,12 +519,15 @@ impl Roots for BigUint {
                 let extra_bits = bits - (f64::MAX_EXP as u64 - 1);
                 let root_scale = (extra_bits + 2) / 3;
                 let scale = root_scale * 3;
+                verif_probe!(RootScaled);
                 (self >> scale).cbrt() << root_scale
             }
         };
 
         #[cfg(not(feature = "std"))]
         let guess = BigUint::one() << max_bits;
+        #[cfg(not(feature = "std"))]
+        verif_probe!(RootPow2Guess);
 
         fixpoint(guess, max_bits, move |s| {
             let q = self / (s * s);
@@ -945,6 +969,8 @@ impl BigUint {
         }
 
         while !r1.is_zero() {
+            verif_probe!(ModinvLoop);
+            verif_probe!(tick);
             let (q, r2) = r0.div_rem(&r1);
             r0 = r1;
             r1 = r2;
